@@ -39,7 +39,7 @@ props = {
  "C18": ("Successful run => non-empty action: postconditions on Run and on all three successful returns of runBatch including the empty batch (found D2, now fixed); Flow.Post/BatchNode.Post/BaseNode.Post may return anything, normalisation is proved in Run/runBatch.",
          "-", "6/C18, 7/D2"),
  "C19": ("Configuration: every setting in option form (composed contract: constructor then application) and in builder form has the same postcondition field == value with a whole-struct frame, hence last-wins and form-independence; defaults proved for NewBaseNode/NewNode/NewBatchNode/NewWorkerPool; NewBaseNode/NewNode/NewBatchNode apply the collected options in index order, each exactly once, base options before custom ones.",
-         "NewNode/NewBatchNode: that the collected option lists are the order-preserving sub-sequences of the argument list is not proved (only that each collected list is applied in order); unknown options may set any field of the node they receive.", "6/C19"),
+         "Unknown options may set any field of the node they receive (A1 for options); option application inside NewNode/NewBatchNode: the collected lists are proved to be the order-preserving sub-sequences of the argument list.", "6/C19"),
  "C20": ("Retry wait with a ghost clock: at every Exec site after the first, now >= end of previous attempt + wait (T7); no timer before the first attempt; the blocking receive on the timer always sits in a select with ctx.Done() whose branch returns Is(err, ctx.Err()) without further blocking operation or callback.",
          "T7 stands for real elapsed time (not measured); T5, T8.", "6/C20"),
 }
